@@ -22,10 +22,14 @@ Names == <<"list", "vector", "cons", "concat", "vec", "nth", "first", "rest", "c
 PoolText == <<"[1 2 3]", "{:a 1}", "1", ":a", "nil", "(1 2 3)", "0", "[:a]", "#{:a \"b\"}", "2", "inc", "{:a {:b 1}}",
               "()", "[]", "{}", "#{}", "(1)", "[1]", "{\"a\" 1 :b nil}", "-1", "5", "\"s\"", "\"\"", "q",
               "true", "false", "[:a :b]", "\"a\"", ":b", "[0]", "{:b :a}", "(:a 1)", "identity",
-              "{:a 1 :b 2}", "{:a :b :b :a}", "{:a :b :b :c}", "[1 [2 3]]">>
+              "{:a 1 :b 2}", "{:a :b :b :a}", "{:a :b :b :c}", "[1 [2 3]]", "(fn [& r] r)">>
 FnRefs == {"inc", "identity"}
+\* a function FORM is passed unquoted (it evaluates to a closure with a rest parameter)
+FnForms == {"(fn [& r] r)"}
 Pool == [k \in 1..Len(PoolText) |->
-           IF PoolText[k] \in FnRefs THEN Mk("fnref", 0, PoolText[k], <<>>, NoMap) ELSE Parse(PoolText[k])]
+           IF PoolText[k] \in FnRefs THEN Mk("fnref", 0, PoolText[k], <<>>, NoMap)
+           ELSE IF PoolText[k] \in FnForms THEN Mk("fnform", 0, PoolText[k], <<Parse(PoolText[k])>>, NoMap)
+           ELSE Parse(PoolText[k])]
 NP == Len(PoolText)
 
 ASSUME InitRegisters
@@ -65,7 +69,8 @@ Init == /\ ph = 0
            \/ Pure2 > 0 /\ ar = -2 /\ idx \in 0..(Len(P2A) * Pure2 * Pure2 * 2 - 1)
            \/ b <= Len(IdxCalls) /\ ar = -3 /\ idx \in 0..(Len(IdxSeqs) * IdxRange * IdxRange - 1)
 
-Resolve(a) == IF a.t = "fnref" THEN Lookup(Base.envs, 1, a.s).v ELSE a
+Resolve(a) == IF a.t = "fnref" THEN Lookup(Base.envs, 1, a.s).v
+              ELSE IF a.t = "fnform" THEN Ev(a.xs[1], 1, Base).v ELSE a
 
 \* a purity case: (let [v A] (let [r1 (f v B1) r2 (f v B2)] (list r1 r2 v)))   (side = 0)
 \*            or  (let [v A] (let [r1 (f B1 v) r2 (f B2 v)] (list r1 r2 v)))   (side = 1)
@@ -121,7 +126,7 @@ Next == /\ ph = 0 /\ ph' = 1 /\ UNCHANGED <<b, ar, idx>>
                     ELSE LET r == CallBuiltin(name, vals, Base) IN
                            [k |-> r.k, v |-> Abstract(r.v, r.st), ord |-> TRUE]
                c == [kind |-> "call", tag |-> name, name |-> name, args |-> args,
-                     src |-> "(" \o name \o Join([k \in 1..ar |-> " " \o PrStr(args[k])], "") \o ")",
+                     src |-> "(" \o name \o Join([k \in 1..ar |-> " " \o (IF args[k].t = "fnform" THEN args[k].s ELSE PrStr(args[k]))], "") \o ")",
                      allow |-> [k |-> o.k, v |-> o.v, ord |-> o.ord]]
            IN PrintT("CASE " \o ToJson(c))
 
